@@ -440,7 +440,81 @@ class Interp(object):
                     continue
             self.exec_block(st.orelse, env)
             return
-        raise Unsupported("while with invariant: not implemented", st)
+        counted = self.counting_while(st, env)
+        if counted is None:
+            raise Unsupported("while loop under a loop contract that is not a plain counting loop "
+                              "(i < bound ... i += step): not implemented", st)
+        var, fake, rng = counted
+        seq = self.as_iterable(rng, st)
+        if isinstance(seq, list):
+            return self.st_For_items(fake, env, seq)
+        self.symbolic_for(fake, env, seq, spec, ordinal)
+        env.locals[var] = UNDEF     # after a while loop the counter is >= bound, after the for loop it is the last item
+
+    def st_For_items(self, st, env, seq):
+        for item in seq:
+            self.assign(st.target, item, env)
+            try:
+                self.exec_block(st.body, env)
+            except _Break:
+                return
+            except _Continue:
+                continue
+        self.exec_block(st.orelse, env)
+
+    def counting_while(self, st, env):
+        """`while i < bound: body; i += step` (counter initialised before the loop, incremented only by the last
+        statement, no `continue`, bound not touched by the body) is the loop `for i in range(i0, bound, step): body`.
+        Returns (counter name, equivalent For statement, range value) or None."""
+        t = st.test
+        if not (isinstance(t, ast.Compare) and len(t.ops) == 1 and isinstance(t.ops[0], ast.Lt)
+                and isinstance(t.left, ast.Name) and st.body):
+            return None
+        var = t.left.id
+        bound = t.comparators[0]
+        last = st.body[-1]
+        step = None
+        if isinstance(last, ast.AugAssign) and isinstance(last.op, ast.Add) and isinstance(last.target, ast.Name) \
+                and last.target.id == var and isinstance(last.value, ast.Constant) and isinstance(last.value.value, int):
+            step = last.value.value
+        elif isinstance(last, ast.Assign) and len(last.targets) == 1 and isinstance(last.targets[0], ast.Name) \
+                and last.targets[0].id == var and isinstance(last.value, ast.BinOp) and isinstance(last.value.op, ast.Add) \
+                and isinstance(last.value.left, ast.Name) and last.value.left.id == var \
+                and isinstance(last.value.right, ast.Constant) and isinstance(last.value.right.value, int):
+            step = last.value.right.value
+        if step is None or step <= 0:
+            return None
+        body = st.body[:-1]
+        bound_names = set(n.id for n in ast.walk(bound) if isinstance(n, ast.Name))
+        for nd in ast.walk(bound):
+            if isinstance(nd, ast.Call) and not (isinstance(nd.func, ast.Name) and nd.func.id == "len"):
+                return None
+        bound_names.discard("len")
+
+        def visit(nodes, depth):
+            for b in nodes:
+                for nd in ast.walk(b):
+                    if isinstance(nd, ast.Name) and isinstance(nd.ctx, ast.Store) and (nd.id == var or nd.id in bound_names):
+                        return False
+                    if isinstance(nd, ast.Call) and isinstance(nd.func, ast.Attribute) and isinstance(nd.func.value, ast.Name) \
+                            and nd.func.value.id in bound_names:
+                        return False          # a method call on the bounded object may change its length
+                    if isinstance(nd, ast.Continue):
+                        return False          # would skip the increment (conservative: also inside inner loops)
+            return True
+        if not visit(body, 0):
+            return None
+        start = env.locals.get(var, UNDEF)
+        if start is UNDEF or not (isinstance(start, int) or (ops.is_sym(start) and z3.is_int(start))):
+            return None
+        stop = self.eval(bound, env)
+        fake = ast.For(target=ast.Name(id=var, ctx=ast.Store()), iter=bound, body=body or [ast.Pass()], orelse=st.orelse)
+        ast.copy_location(fake, st)
+        ast.fix_missing_locations(fake)
+        # keep the loop's position among the function's loops (ordinals are assigned by source position of `st`)
+        self.loop_ordinals.setdefault(id(env.finfo.node), {})[id(fake)] = self.next_loop_ordinal(env, st)
+        rng = BUILTINS["range"].fn(self, [start, stop, step], {}, st)
+        return var, fake, rng
 
     # ---- for loops -------------------------------------------------------------
     def next_loop_ordinal(self, env, st):
